@@ -1,0 +1,56 @@
+"""Verification seams. Inert unless the environment variable TEALER_VERIF is "1".
+
+The deterministic-simulation harness (kept outside this repository) needs to own the one
+iteration order in the analysis which is decided by object addresses rather than by the
+program being analysed: ``Subroutine.called_subroutines`` returns ``list(set(...))`` of objects
+hashed by identity.  ``ordered`` lets an installed scheduler choose that order.
+
+With the guard off ``ordered`` returns the decorated function itself, so the shipped behaviour,
+including its cost, is unchanged.  With the guard on but no scheduler installed the wrapped
+function returns its result untouched.
+"""
+
+import functools
+import os
+from typing import Any, Callable, List, Optional
+
+GUARD = "TEALER_VERIF"
+ENABLED: bool = os.environ.get(GUARD) == "1"
+
+# scheduler(site, items, key) -> reordered items
+_SCHEDULER: Optional[Callable[[str, List[Any], Callable[[Any], Any]], List[Any]]] = None
+
+
+def install_scheduler(
+    scheduler: Optional[Callable[[str, List[Any], Callable[[Any], Any]], List[Any]]]
+) -> None:
+    global _SCHEDULER  # pylint: disable=global-statement
+    _SCHEDULER = scheduler
+
+
+def ordered(site: str, key: Callable[[Any], Any]) -> Callable[[Callable], Callable]:
+    """Decorator for functions returning a list whose order is an accident of hashing.
+
+    Args:
+        site: name of the hook site, passed to the scheduler.
+        key: canonical sort key of the list items, passed to the scheduler.
+
+    Returns:
+        identity decorator when the guard is off; otherwise a decorator which hands the returned
+        list to the installed scheduler.
+    """
+
+    def decorator(func: Callable) -> Callable:
+        if not ENABLED:
+            return func
+
+        @functools.wraps(func)
+        def wrapper(*args: Any, **kwargs: Any) -> Any:
+            items = func(*args, **kwargs)
+            if _SCHEDULER is None:
+                return items
+            return _SCHEDULER(site, items, key)
+
+        return wrapper
+
+    return decorator
